@@ -16,6 +16,14 @@ CHECKS = {
         "trusts the harness's own reference implementations of the CUSIP/SEDOL/ISIN algorithms",
         "property-based testing: exhaustive enumeration + Hypothesis sampling against an independent reference implementation (differential oracle)",
     ),
+    "C09": (
+        "exploration",
+        "Hypothesis-generated calendar fields x notations x offsets x zone names rendered by an independent renderer, expected "
+        "instant from integer civil-date arithmetic; every single-field corruption must be rejected; writing checked by an "
+        "independent parser of the written form (instant within 500us, printed offset); exhaustive table over all 1561 whole-minute offsets.",
+        "trusts stdlib datetime arithmetic and the harness's integer date arithmetic; sampled over instants",
+        "property-based testing: Hypothesis generation + exhaustive offset table against an independent reference implementation; round-trip oracle for writing",
+    ),
 }
 
 PENDING_REASON = "check not built yet in this round (planned in DESIGN.md §3); not claimed until its machinery exists and is quiet on the unchanged tree"
